@@ -116,8 +116,21 @@ Relevant(v) == (v.drop = 0 \/ v.bad = 0) /\ (v.bad = 0 \/ (v.sizes = 32 /\ ~v.ca
 G4e == { [fam |-> "G4", gets |-> TRUE, raw_tags |-> <<>>, payload |-> 0, sig |-> [typed |-> <<>>],
           hdr |-> [typed |-> FileTags(nf, v)]] : nf \in {1, 2}, v \in {x \in FileVariants : Relevant(x)} }
 
+\* headers with entries appended after the immutable region (rpm's "dribbles"): tags the accessors read,
+\* out of ascending order relative to the region's
+RegionPart == << [tag |-> 1000, type |-> 6, v |-> << <<110>> >>], [tag |-> 1001, type |-> 6, v |-> << <<49>> >>],
+                 [tag |-> 1022, type |-> 6, v |-> << <<120>> >>], [tag |-> 1118, type |-> 8, v |-> << <<47>> >>] >>
+DribblePool == << [tag |-> 1003, type |-> 4, v |-> << <<0, 7>> >>], [tag |-> 1004, type |-> 9, v |-> << <<115>>, <<116>> >>],
+                  [tag |-> 1006, type |-> 4, v |-> << <<1, 2>> >>], [tag |-> 1009, type |-> 4, v |-> << <<0, 99>> >>],
+                  [tag |-> 1049, type |-> 8, v |-> << <<114>> >>], [tag |-> 1048, type |-> 4, v |-> << <<0, 8>> >>],
+                  [tag |-> 1050, type |-> 8, v |-> << <<49>> >>], [tag |-> 1016, type |-> 9, v |-> << <<103>> >>],
+                  [tag |-> 1117, type |-> 8, v |-> << <<102>> >>], [tag |-> 1116, type |-> 4, v |-> << <<0, 0>> >>] >>
+G4f == { [fam |-> "G4", gets |-> TRUE, raw_tags |-> <<1003, 1004>>, payload |-> 0, sig |-> [typed |-> <<>>],
+          hdr |-> [typed |-> RegionPart, dribble |-> [i \in 1..k |-> DribblePool[((i + sh - 1) % Len(DribblePool)) + 1]]]]
+           : k \in 1..Len(DribblePool), sh \in 0..(Len(DribblePool) - 1) }
+
 AllCases == SetToSeq(G1) \o SetToSeq(G2a) \o SetToSeq(G2b) \o SetToSeq(G2c) \o SetToSeq(G3a) \o SetToSeq(G3b)
-            \o SetToSeq(G3c) \o SetToSeq(G4a) \o SetToSeq(G4b) \o SetToSeq(G4c) \o SetToSeq(G4d) \o SetToSeq(G4e)
+            \o SetToSeq(G3c) \o SetToSeq(G4a) \o SetToSeq(G4b) \o SetToSeq(G4c) \o SetToSeq(G4d) \o SetToSeq(G4e) \o SetToSeq(G4f)
 
 VARIABLE done
 Init == done = FALSE
